@@ -1,5 +1,249 @@
-"""C16, Python layer: ConeCyl._calc_linear_matrices (placeholder until the contract is written)."""
+"""C16, Python layer: ConeCyl._calc_linear_matrices + modelDB.get_linear_matrices, executed symbolically (real source) with the
+kernel modules as stubs whose functions record their arguments.  The expected argument of every kernel parameter is taken from
+the parameter NAME in the real .pyx signature (alpharad -> cc.alpharad, F -> the constitutive matrix of the theory, kuBot ->
+cc.kuBot, ...), so a wrong kernel, a wrong argument order or a wrong edge stiffness for one model shows as a mismatch.
+
+Clauses: cylinder/cone dispatch (alpharad == 0), kernels of the model's own linear module (the iso_ models take kG0 and the edge
+matrix from the general model), F = ABD (clpt) / ABDE with the shear block times K (fsdt) of read_stack(stack, plyts,
+laminaprops) (F_reuse honoured), Fc = Nxxtop[0] 2 pi r2 cos(alpha), the combined-load split calls the kG0 kernel with one load
+at a time, k0 = make_symmetric(k0 + k0edges), every kG0 symmetrised, k0uk / k0uu from exclude_dofs_matrix(k0).
+"""
+import itertools
+import os
+from fractions import Fraction
+
+import numpy as np
+
+from ..core import REPO, CheckerError
+from ..poly import P, normal
+from .. import pysym, shims, kharness as K, pyxfront
+from ..pysym import real, integer, to_z3, Opaque, Obj
+from . import py_conecyl as PC
+from .c16 import model_db
+
+LM = PC.CC + '_calc_linear_matrices'
+GL = 'compmech/conecyl/modelDB.py:get_linear_matrices'
+MODELS = ['clpt_donnell_bc1', 'clpt_donnell_bc2', 'clpt_donnell_bc3', 'clpt_donnell_bc4', 'clpt_donnell_bcn',
+          'clpt_sanders_bc1', 'clpt_sanders_bc2', 'clpt_sanders_bc3', 'clpt_sanders_bc4',
+          'iso_clpt_donnell_bc2', 'iso_clpt_donnell_bc3',
+          'fsdt_donnell_bc1', 'fsdt_donnell_bc2', 'fsdt_donnell_bc3', 'fsdt_donnell_bc4', 'fsdt_donnell_bcn', 'fsdt_sanders_bcn']
+_SIGS = {}
+
+
+def signature(modname, fn):
+    key = (modname, fn)
+    if key not in _SIGS:
+        sub = 'fsdt' if modname.startswith('fsdt') else 'clpt'
+        mod = pyxfront.rewrite(os.path.join(REPO, 'compmech/conecyl', sub, modname + '.pyx'))
+        _SIGS[key] = [nm for _, nm in mod.sigs[fn]] if fn in mod.sigs else None
+    return _SIGS[key]
+
+
+def harness():
+    it = PC.mk()
+    calls = []
+
+    def kernel(name):
+        def contract(itp, args, kw):
+            calls.append((name, list(args), dict(kw)))
+            return Opaque('mat', name=name, n=len(calls))
+        return contract
+    for mn in list(it.modules):
+        if mn.startswith('compmech.conecyl.clpt.') or mn.startswith('compmech.conecyl.fsdt.'):
+            short = mn.split('.')[-1]
+            for fn in ('fk0', 'fk0_cyl', 'fkG0', 'fkG0_cyl', 'fk0edges'):
+                if signature(short, fn) is None:
+                    it.modules[mn].g.pop(fn, None)      # the real module has no such function (AttributeError as in the package)
+                else:
+                    it.contracts['%s.%s' % (mn, fn)] = kernel('%s.%s' % (short, fn))
+    for kind in ('mat', 'sum', 'sym'):
+        it.contracts['attr:%s.data' % kind] = lambda itp, o: Opaque('data', of=o)
+    it.np.isnan = lambda x: False
+    it.np.isinf = lambda x: False
+    it.np.any = lambda x: x
+    it.contracts['compmech.sparse.make_symmetric'] = lambda itp, a, kw: Opaque('sym', of=a[0])
+    it.contracts['scipy.sparse.csr_matrix'] = lambda itp, a, kw: a[0]
+    it.contracts['scipy.sparse.coo_matrix'] = lambda itp, a, kw: a[0]
+    it.contracts['compmech.conecyl.conecyl.ConeCyl.exclude_dofs_matrix'] = \
+        lambda itp, a, kw: {'kuu': Opaque('kuu', of=a[1]), 'kuk': Opaque('kuk', of=a[1], kw=sorted(k for k, v in kw.items() if v))}
+    lam_calls = []
+
+    def read_stack(itp, a, kw):
+        lam = Obj(None)
+        lam.name = 'lam'
+        abd = np.empty((6, 6), dtype=object)
+        abde = np.empty((8, 8), dtype=object)
+        abde.fill(0)
+        for i in range(6):
+            for j in range(6):
+                abd[i, j] = real('ABD%d%d' % (i, j))
+                abde[i, j] = abd[i, j]
+        for i in range(6, 8):
+            for j in range(6, 8):
+                abde[i, j] = real('E%d%d' % (i, j))
+        lam.attrs['ABD'] = abd
+        lam.attrs['ABDE'] = abde
+        lam_calls.append((list(a), dict(kw)))
+        return lam
+    it.contracts['compmech.composite.laminate.read_stack'] = read_stack
+    return it, calls, lam_calls
+
+
+def same(g, w):
+    if isinstance(w, np.ndarray):
+        return isinstance(g, np.ndarray) and g.shape == w.shape and all(
+            K.compare(x if isinstance(x, P) else P.const(x), y if isinstance(y, P) else P.const(y))[0] for x, y in zip(g.reshape(-1), w.reshape(-1)))
+    if isinstance(w, Opaque):
+        return g is w
+    if isinstance(w, (P, int, float, Fraction)) and isinstance(g, (P, int, float, Fraction)) and not isinstance(w, bool):
+        return K.compare(g if isinstance(g, P) else P.const(g), w if isinstance(w, P) else P.const(w))[0]
+    return g == w
+
+
+def check_one(led, model, cyl, combined, reuse):
+    db = model_db()
+    it, calls, lam_calls = harness()
+    is_iso = model.startswith('iso_')
+    gen = model[4:] if is_iso else model
+    lin_own, lin_gen = db[model]['linear'], db[gen]['linear']
+    alphadeg = 0. if cyl else real('alphadeg')
+    attrs = dict(model=model, alphadeg=alphadeg, r2=real('r2'), L=real('L'), m1=integer('m1'), m2=integer('m2'), n2=2, s=integer('s'),
+                 P=real('P'), T=real('T'), Fc=real('Fc'), pdC=False, K=real('Kshear'),
+                 kuBot=real('kuBot'), kuTop=real('kuTop'), kvBot=real('kvBot'), kvTop=real('kvTop'), kwBot=real('kwBot'), kwTop=real('kwTop'),
+                 kphixBot=real('kphixBot'), kphixTop=real('kphixTop'), kphitBot=real('kphitBot'), kphitTop=real('kphitTop'))
+    if is_iso:
+        attrs.update(E11=real('E11'), nu=real('nu'), h=real('h'), laminaprop=None, stack=[])
+    else:
+        attrs.update(stack=[real('th0'), real('th1')], plyt=real('plyt'), laminaprop=(real('E1'), real('E2')))
+    Freuse = None
+    if reuse:
+        n = 8 if 'fsdt' in model else 6
+        Freuse = np.array([[real('Fr%d%d' % (i, j)) for j in range(n)] for i in range(n)], dtype=object)
+        attrs['F_reuse'] = Freuse
+    it.facts += [to_z3(real('r2')) > 0, to_z3(real('L')) > 0, to_z3(shims.PI) > 3, to_z3(integer('m1')) >= 1, to_z3(integer('m2')) >= 1]
+    if not cyl:
+        it.facts += [to_z3(real('alphadeg')) > 0, to_z3(real('alphadeg')) < 90]
+
+    def run():
+        del calls[:]
+        del lam_calls[:]
+        cc = PC.new_cc(it, **attrs)
+        it.call(it.getattr(cc, '_calc_linear_matrices'), [], dict(combined_load_case=combined, silent=True))
+        return cc, list(calls), list(lam_calls)
+    res = it.explore(run)
+    tag = '%s,%s,combined=%s%s' % (model, 'cylinder' if cyl else 'cone', combined, ',F_reuse' if reuse else '')
+    for n_, (path, out) in enumerate(res):
+        name = '%s[%s]%s' % (LM, tag, '' if len(res) == 1 else '#%d' % n_)
+        if out[0] == 'raise':
+            led.fail(name + '/no-exception', LM, {'raises': out[1].tname, 'args': [str(a)[:120] for a in out[1].eargs]}, signature='raise:' + out[1].tname)
+            continue
+        cc, pcalls, plam = out[1]
+        a = cc.attrs
+        probs = []
+        # constitutive matrix
+        if is_iso:
+            Fexp = None
+        elif reuse:
+            Fexp = Freuse
+        else:
+            if len(plam) != 1:
+                probs.append('read_stack called %d times' % len(plam))
+                Fexp = None
+            else:
+                la, lkw = plam[0]
+                if not (la and la[0] is a['stack'] or la[0] == a['stack']) or lkw.get('plyts') != a['plyts'] or lkw.get('laminaprops') != a['laminaprops']:
+                    probs.append('read_stack arguments %s %s' % (str(la)[:80], str(lkw)[:120]))
+                lam = a['lam']
+                if 'fsdt' in model:
+                    Fexp = np.array(lam.attrs['ABDE'], dtype=object)
+                    # lam.ABDE is scaled in place by the method: the expected matrix is built from the unscaled atoms
+                    Fexp = np.empty((8, 8), dtype=object)
+                    Fexp.fill(0)
+                    for i in range(6):
+                        for j in range(6):
+                            Fexp[i, j] = real('ABD%d%d' % (i, j))
+                    for i in range(6, 8):
+                        for j in range(6, 8):
+                            Fexp[i, j] = real('E%d%d' % (i, j)) * attrs['K']
+                else:
+                    Fexp = np.array([[real('ABD%d%d' % (i, j)) for j in range(6)] for i in range(6)], dtype=object)
+        arad = shims.sym_deg2rad(alphadeg) if not cyl else P.const(0)
+        cosa = shims.sym_cos(arad) if not cyl else P.const(1)
+        Fc_exp = a['Nxxtop'][0] * (2 * shims.PI * attrs['r2'] * cosa)
+        nxx0 = attrs['Fc'] / (2 * shims.PI * attrs['r2'] * cosa)
+        if not same(a['Nxxtop'][0], nxx0):
+            probs.append('Nxxtop[0] is %s' % (a['Nxxtop'][0],))
+        values = dict(alpharad=arad, r1=a['r1'], r2=attrs['r2'], L=attrs['L'], m1=attrs['m1'], m2=attrs['m2'], n2=attrs['n2'], s=attrs['s'],
+                      E11=attrs.get('E11'), nu=attrs.get('nu'), h=attrs.get('h'), P=attrs['P'], T=attrs['T'], Fc=Fc_exp)
+        for kname in ('kuBot', 'kuTop', 'kvBot', 'kvTop', 'kwBot', 'kwTop', 'kphixBot', 'kphixTop', 'kphitBot', 'kphitTop'):
+            values[kname] = attrs[kname]
+        k0fn = 'fk0_cyl' if cyl else 'fk0'
+        kGfn = 'fkG0_cyl' if cyl else 'fkG0'
+        expected = [('%s.fk0edges' % lin_gen, {}), ('%s.%s' % (lin_own, k0fn), {})]
+        if combined:
+            expected += [('%s.%s' % (lin_gen, kGfn), dict(P=0, T=0)), ('%s.%s' % (lin_gen, kGfn), dict(Fc=0, T=0)), ('%s.%s' % (lin_gen, kGfn), dict(Fc=0, P=0))]
+        else:
+            expected += [('%s.%s' % (lin_gen, kGfn), {})]
+        got_names = [c_[0] for c_ in pcalls]
+        if got_names != [e[0] for e in expected]:
+            probs.append('kernel calls %s instead of %s' % (got_names, [e[0] for e in expected]))
+        else:
+            for (nm, ca, ckw), (_, override) in zip(pcalls, expected):
+                modn, fn = nm.split('.')
+                sig = signature(modn, fn)
+                if ckw:
+                    probs.append('%s called with keywords' % nm)
+                if len(ca) != len(sig):
+                    probs.append('%s called with %d arguments, signature has %d (%s)' % (nm, len(ca), len(sig), sig))
+                    continue
+                for pos, (pname, g) in enumerate(zip(sig, ca)):
+                    w = override.get(pname, Fexp if pname == 'F' else values.get(pname))
+                    if pname == 'F' and Fexp is None:
+                        continue
+                    if w is None and pname not in override:
+                        probs.append('%s: no expectation for parameter %s' % (nm, pname))
+                        continue
+                    if not same(g, w):
+                        probs.append('%s: parameter %s (position %d) receives %s instead of %s' % (nm, pname, pos, str(g)[:80], str(w)[:80]))
+            # composition
+            mats = [Opaque('mat', name=nm, n=k + 1) for k, (nm, _, _) in enumerate(pcalls)]
+            k0_exp = Opaque('sym', of=Opaque('sum', terms=[mats[1], mats[0]]))
+            if not (isinstance(a.get('k0'), Opaque) and a['k0'].key() == k0_exp.key()):
+                probs.append('k0 is %r instead of make_symmetric(k0 + k0edges)' % (a.get('k0'),))
+            if combined:
+                for attr, m_ in zip(('kG0_Fc', 'kG0_P', 'kG0_T'), mats[2:5]):
+                    if not (isinstance(a.get(attr), Opaque) and a[attr].key() == Opaque('sym', of=m_).key()):
+                        probs.append('%s is %r' % (attr, a.get(attr)))
+            else:
+                if not (isinstance(a.get('kG0'), Opaque) and a['kG0'].key() == Opaque('sym', of=mats[2]).key()):
+                    probs.append('kG0 is %r' % (a.get('kG0'),))
+            for attr, kind in (('k0uu', 'kuu'), ('k0uk', 'kuk')):
+                v = a.get(attr)
+                if not (isinstance(v, Opaque) and v.kind == kind and isinstance(v.f['of'], Opaque) and v.f['of'].key() == k0_exp.key()):
+                    probs.append('%s is %r' % (attr, v))
+        clause = 'kernels, arguments by parameter name, constitutive matrix, symmetrisation and partition'
+        if probs:
+            led.fail('%s/%s' % (name, clause), LM, {'differences': probs[:8]}, signature='linmat')
+        else:
+            led.ok('%s/%s' % (name, clause), LM)
+
+
+def _job(led, j):
+    check_one(led, *j)
 
 
 def check(led):
-    pass
+    led.function(LM)
+    led.function(GL)
+    from .. import parallel
+    jobs = []
+    for model in MODELS:
+        for cyl in (False, True):
+            for combined in (None, 1):
+                jobs.append((model, cyl, combined, False))
+        if not model.startswith('iso_'):
+            jobs.append((model, False, None, True))
+    only = os.environ.get('C16_PY_MODELS')
+    if only:
+        jobs = [j for j in jobs if j[0] in only.split(',')]
+    parallel.run(led, _job, jobs)
